@@ -2962,6 +2962,12 @@ again:
 		case METH_DECLINECOUNTER:
 			break;
 		}
+		if (i.v == INSVERB_UNK) {
+			/* nothing to instruct here, but to our callers that
+			 * reads `buffer finished, push more', so carry on */
+			i = (echs_instruc_t){INSVERB_UNK};
+			goto again;
+		}
 	}
 	return i;
 }
